@@ -70,6 +70,25 @@ Filter(g, x, axis, sign, ns) ==
   Sweep(g, x, x, axis, sign, ns, IF sign = 1 THEN 1 ELSE Sz(g, axis) - 2)
 Base(g, axis, sign) == IF sign = 1 THEN 0 ELSE Sz(g, axis) - 1
 
+(* ---- exact Jacobian at the rational parameter point (forward mode): derivative of every output with     ---- *)
+(* ---- respect to input j; defined where no element sits exactly at the kink x_e = sum y_s^2               ---- *)
+RECURSIVE QSumSetD(_, _, _)
+QSumSetD(S, f, df) == IF S = {} THEN QZero ELSE LET s == CHOOSE t \in S : TRUE IN QAdd(QMul(QMul(QI(2), f[s]), df[s]), QSumSetD(S \ {s}, f, df))
+RECURSIVE SweepD(_, _, _, _, _, _, _, _)
+SweepD(g, xx, yy, dy, axis, sign, nsamp, l) ==      \* yy: values, dy: derivatives (both over coordinates)
+  IF l < 0 \/ l >= Sz(g, axis) THEN dy
+  ELSE LET layer == {c \in Coords(g) : c[axis] = l}
+           m(c) == QSumSet(Supports(g, c, axis, sign, nsamp), yy)
+           y2 == [c \in Coords(g) |-> IF c \in layer THEN QMin(xx[c], m(c)) ELSE yy[c]]
+           dy2 == [c \in Coords(g) |-> IF c \in layer THEN (IF QLess(xx[c], m(c)) THEN dy[c]     \* dy was initialised with dx
+                                                            ELSE QSumSetD(Supports(g, c, axis, sign, nsamp), yy, dy)) ELSE dy[c]]
+       IN SweepD(g, xx, y2, dy2, axis, sign, nsamp, l + sign)
+Jac(g, xx, axis, sign, nsamp, j) ==       \* column j: derivative of all outputs with respect to the input at coordinate j
+  SweepD(g, xx, xx, [c \in Coords(g) |-> IF c = j THEN QOne ELSE QZero], axis, sign, nsamp, IF sign = 1 THEN 1 ELSE Sz(g, axis) - 2)
+NoTie(g, xx, axis, sign, nsamp) ==
+  LET y == Filter(g, xx, axis, sign, nsamp) IN
+  \A c \in Coords(g) : c[axis] # Base(g, axis, sign) => xx[c] # QSumSet(Supports(g, c, axis, sign, nsamp), y)
+
 (* ---- symmetries ---- *)
 Mirror(g, x, a) == [c \in Coords(g) |-> x[[c EXCEPT ![a] = Sz(g, a) - 1 - c[a]]]]
 SwapXY(g) == <<g[2], g[1], g[3]>>
@@ -113,5 +132,10 @@ FieldSeq(g, f) == Tup([e \in 1..Nel(g) |-> f[CHOOSE c \in Coords(g) : El(g, c) =
 Emit == phase = "done" =>
    PrintT(<<"CASE", ToJson([grid |-> grid, ns |-> ns, x |-> FieldSeq(grid, x),
                             y |-> {<<d[1], d[2], FieldSeq(grid, Filter(grid, x, d[1], d[2], ns))>> : d \in Dirs(grid)}])>>)
+CoordOf(g, e) == CHOOSE c \in Coords(g) : El(g, c) = e
+EmitJac == phase = "done" =>
+   PrintT(<<"JAC", ToJson([grid |-> grid, ns |-> ns, x |-> FieldSeq(grid, x),
+        jac |-> {<<d[1], d[2], Tup([j \in 1..Nel(grid) |-> FieldSeq(grid, Jac(grid, x, d[1], d[2], ns, CoordOf(grid, j)))])>> :
+                    d \in {dd \in Dirs(grid) : NoTie(grid, x, dd[1], dd[2], ns)}}])>>)
 EmitDirs == (phase = "pick" /\ xs = <<>>) => PrintT(<<"DIRS", ToJson({<<s, ParseDir(s).axis, ParseDir(s).sign>> : s \in DirStrings})>>)
 =============================================================================
